@@ -411,7 +411,7 @@ def leaves(x, out, depth=0):
     if isinstance(x, (list, tuple, set, frozenset, collections.deque)):
         for v in x:
             leaves(v, out, depth + 1)
-    elif isinstance(x, dict):
+    elif isinstance(x, collections.abc.Mapping):      # dict, and mappings that are not dicts (UserDict, mappingproxy)
         for k, v in x.items():
             out.setdefault('keys', []).append(k)
             leaves(k, out, depth + 1)
